@@ -32,7 +32,13 @@ def strnlenP : Nat → Nat → Nat → Prog Nat
     if c = 0 then pure acc else strnlenP n (s+1) (acc+1)
 
 /-- what follows the entry checks: `fgets(dest, dmax, stdin)` and the inspection of what it stored -/
-def getsBody (cfg : Cfg) (dest dmax inp len : Nat) : Prog Nat := do
+def getsBody (cfg : Cfg) (dest dmax inp len : Nat) : Prog Nat :=
+  if inp = 0 ∧ dmax ≠ 1 then do
+    -- a stream whose first read fails (the shim hands over a directory: EISDIR = 21): fgets returns NULL with errno set;
+    -- dest[0] = 0 (d4eb0bb), nothing reported, NULL returned
+    store dest 0
+    pure 21
+  else do
   let (m, eof) ← fgetsLoop (dmax - 1) inp len dest 0       -- at most dmax-1 bytes
   if m = 0 ∧ dmax ≠ 1 then do
     -- fgets returned NULL at end of file: nothing reported, errno 0; C11: dest[0] = 0 (d4eb0bb)
@@ -48,7 +54,7 @@ def getsBody (cfg : Cfg) (dest dmax inp len : Nat) : Prog Nat := do
     if n > 0 ∧ last = 10 then do store (dest + n - 1) 0; done (n - 1)
     else if n = dmax - 1 ∧ eof = false then
       -- dest is full: the line fits only if it ends right here; `getc(stdin)`
-      if len - m = 0 then (if n = 0 then pure NEG1 else done n)          -- EOF
+      if len - m = 0 then (if n = 0 then pure (if inp = 0 then 21 else NEG1) else done n)   -- EOF (or the read error)
       else do
         let c ← load (inp + m)
         if c = 10 then done n
